@@ -1,9 +1,11 @@
 /-
 C16 — A written CDB file returns every value, in order, and nothing else.
 
-Property theorems only; helper lemmas go to `Proofs/Cdb.lean`.
+Property theorems only; helper lemmas go to `Proofs/Cdb.lean` (hash-table core, text format) and
+`Proofs/CdbFile.lean` (byte layout of the written file, the reader's loop on the file bytes).
 -/
 import DnsVerif.Proofs.Cdb
+import DnsVerif.Proofs.CdbFile
 
 namespace DnsVerif.Props.C16
 open DnsVerif DnsVerif.Cdb
@@ -38,5 +40,139 @@ theorem makeParse_dumpText (es : List (Bytes × Bytes))
 /-- non-vacuity / sanity: three colliding slots in a table that wraps around -/
 example : probeAll (buildTable [(0x300, 2048), (0x300, 2060), (0x500, 2072), (0x300, 2084)]) 0x300
     = [2048, 2060, 2084] := by decide
+
+/-! ## Byte level, end to end: `writeFile` then `findAll` / `findNext` on the file bytes -/
+
+/-- the file as the reader sees it: the mmapped byte array -/
+abbrev fileOf (b : Bytes) : File := b.toArray
+
+/-- **Size condition of the format** (decidable, closed form): all offsets are 32-bit
+little-endian, so the whole file — 2048 header bytes, `8 + klen + dlen` bytes per record, two 8-byte
+slots per record — must stay below 2^32 bytes. `go-cdb-mods/writer.go` does NOT check this. -/
+def FitsU32 (es : List Entry) : Prop := fileSize es < u32
+
+instance (es : List Entry) : Decidable (FitsU32 es) := by unfold FitsU32; infer_instance
+
+/-- the size of the written file is exactly `fileSize` (no hypothesis) -/
+theorem writeFile_size (es : List Entry) : (fileOf (writeFile es)).size = fileSize es := by
+  rw [fileOf, List.size_toArray, writeFile_length_eq]
+
+/-- **A written CDB file returns every value, in order, and nothing else.**
+Write any sequence of entries `(key, data, hash of the key)` and close; look `key` up with its hash:
+the reader, working on the bytes of the file, returns exactly the data of the entries written under
+`key`, in insertion order.
+
+The hash values are arbitrary 32-bit numbers attached to the entries: the only link required
+between them is that the entries written under the looked-up key carry the hash the reader uses
+(`hkey`), so the statement holds for every hash function, including one that maps all keys to
+one value. -/
+theorem find_written (es : List Entry) (key : Bytes) (hash : Nat)
+    (hsz : FitsU32 es) (hh : ∀ e ∈ es, e.h < u32) (hk : key.length < u32)
+    (hkey : ∀ e ∈ es, e.key = key → e.h = hash) :
+    findAll (fileOf (writeFile es)) key hash = .ok ((es.filter (·.key = key)).map (·.val)) :=
+  find_written_core es key hash (by rw [writeFile_length_eq]; exact hsz) hh hk hkey
+
+/-- the same for a database built with any hash function `H` on (key, data) pairs -/
+theorem find_written_hashfn (H : Bytes → Nat) (hH : ∀ k, H k < u32) (kvs : List (Bytes × Bytes))
+    (key : Bytes) (hk : key.length < u32)
+    (hsz : FitsU32 (kvs.map fun kv => ⟨kv.1, kv.2, H kv.1⟩)) :
+    findAll (fileOf (writeFile (kvs.map fun kv => ⟨kv.1, kv.2, H kv.1⟩))) key (H key)
+      = .ok ((kvs.filter (·.1 = key)).map (·.2)) := by
+  rw [find_written _ key (H key) hsz
+    (fun e he => by obtain ⟨kv, _, rfl⟩ := List.mem_map.mp he; exact hH _) hk
+    (fun e he hek => by obtain ⟨kv, _, rfl⟩ := List.mem_map.mp he; exact congrArg H hek)]
+  rw [List.filter_map, List.map_map]
+  rfl
+
+/-- (a) **nothing else**: a key that was never written is not found, whatever hash the reader is
+given — also one that collides with written keys in hash, table and slot -/
+theorem find_absent (es : List Entry) (key : Bytes) (hash : Nat)
+    (hsz : FitsU32 es) (hh : ∀ e ∈ es, e.h < u32) (hk : key.length < u32)
+    (habs : ∀ e ∈ es, e.key ≠ key) :
+    findAll (fileOf (writeFile es)) key hash = .ok [] := by
+  rw [find_written es key hash hsz hh hk (fun e he hek => absurd hek (habs e he))]
+  have : es.filter (·.key = key) = [] := by
+    rw [List.filter_eq_nil_iff]
+    intro e he
+    simpa using habs e he
+  rw [this]; rfl
+
+/-- (b) **insertion order**: the values come back as a subsequence of the data in the order
+written -/
+theorem find_in_order (es : List Entry) (key : Bytes) (hash : Nat)
+    (hsz : FitsU32 es) (hh : ∀ e ∈ es, e.h < u32) (hk : key.length < u32)
+    (hkey : ∀ e ∈ es, e.key = key → e.h = hash) :
+    ∃ vs, findAll (fileOf (writeFile es)) key hash = .ok vs ∧ vs.Sublist (es.map (·.val)) :=
+  ⟨_, find_written es key hash hsz hh hk hkey, List.filter_sublist.map _⟩
+
+/-- (c) **colliding keys do not leak**: even when every entry carries the same hash `h0` (all keys
+share one table and one probe chain), every value returned for `key` was written under `key`: the
+reader compares the stored key bytes -/
+theorem find_no_leak (es : List Entry) (key : Bytes) (h0 : Nat)
+    (hsz : FitsU32 es) (hh0 : h0 < u32) (hk : key.length < u32) (hcoll : ∀ e ∈ es, e.h = h0) :
+    ∃ vs, findAll (fileOf (writeFile es)) key h0 = .ok vs ∧
+      (∀ v ∈ vs, ∃ e ∈ es, e.key = key ∧ e.val = v) ∧
+      (∀ e ∈ es, e.key = key → e.val ∈ vs) := by
+  refine ⟨_, find_written es key h0 hsz (fun e he => by rw [hcoll e he]; exact hh0) hk
+    (fun e he _ => hcoll e he), ?_, ?_⟩
+  · intro v hv
+    obtain ⟨e, he, rfl⟩ := List.mem_map.mp hv
+    obtain ⟨hmem, hkey⟩ := List.mem_filter.mp he
+    exact ⟨e, hmem, by simpa using hkey, rfl⟩
+  · intro e he hek
+    exact List.mem_map.mpr ⟨e, List.mem_filter.mpr ⟨he, by simpa using hek⟩, rfl⟩
+
+/-- (d) **the iterator**: `FindStart` then successive `FindNext` calls return the values one by one
+and then EOF (`Iter … c vs`: from context `c`, `findNext` yields the elements of `vs` in turn, each
+call handing its context to the next, and `.eof` after the last). No call panics, and the
+iteration stops by EOF, not by running out of the fuel of `findAll`. -/
+theorem findNext_iterates (es : List Entry) (key : Bytes) (hash : Nat)
+    (hsz : FitsU32 es) (hh : ∀ e ∈ es, e.h < u32) (hk : key.length < u32)
+    (hkey : ∀ e ∈ es, e.key = key → e.h = hash) :
+    Iter (fileOf (writeFile es)) key hash {} ((es.filter (·.key = key)).map (·.val)) :=
+  iter_written_core es key hash (by rw [writeFile_length_eq]; exact hsz) hh hk hkey
+
+/-- `Find` (the first `FindNext`): the first value written under the key, or EOF if there is none -/
+theorem find_first (es : List Entry) (key : Bytes) (hash : Nat)
+    (hsz : FitsU32 es) (hh : ∀ e ∈ es, e.h < u32) (hk : key.length < u32)
+    (hkey : ∀ e ∈ es, e.key = key → e.h = hash) :
+    match (es.filter (·.key = key)).map (·.val) with
+    | [] => findNext (fileOf (writeFile es)) key hash {} = .eof
+    | v :: _ => ∃ c, findNext (fileOf (writeFile es)) key hash {} = .ok (v, c) := by
+  have h := findNext_iterates es key hash hsz hh hk hkey
+  generalize (es.filter (·.key = key)).map (·.val) = vs at h
+  cases h with
+  | eof hc => exact hc
+  | next hc _ => exact ⟨_, hc⟩
+
+/-! ### non-vacuity: a concrete file with a collision chain that wraps around
+
+Four entries, all in table 0 (8 slots): three with hash `0x700` (start slot 7: they land in slots
+7, 0, 1 — wrap-around), among them key `[2]` between the two values of key `[1]`; one with hash
+`0x800` (start slot 0, occupied: it lands in slot 2). -/
+
+def es4 : List Entry :=
+  [⟨[1], [10], 0x700⟩, ⟨[2], [20, 21], 0x700⟩, ⟨[1], [], 0x700⟩, ⟨[3], [30], 0x800⟩]
+
+example : buildTable (bucketSlots es4 (positions headerSize es4).1 0)
+    = [(0x700, 2058), (0x700, 2069), (0x800, 2078), (0, 0), (0, 0), (0, 0), (0, 0), (0x700, 2048)] := by
+  decide +kernel
+
+/-- the hypotheses of `find_written` are satisfiable on it, and the theorem gives the answer -/
+example : findAll (fileOf (writeFile es4)) [1] 0x700 = .ok [[10], []] :=
+  find_written es4 [1] 0x700 (by decide) (by decide) (by decide) (by decide)
+
+example : findAll (fileOf (writeFile es4)) [3] 0x800 = .ok [[30]] :=
+  find_written es4 [3] 0x800 (by decide) (by decide) (by decide) (by decide)
+
+/-- an absent key with a colliding hash -/
+example : findAll (fileOf (writeFile es4)) [4] 0x700 = .ok [] :=
+  find_absent es4 [4] 0x700 (by decide) (by decide) (by decide) (by decide)
+
+/-- independent of the theorems: the kernel evaluates the model's writer and reader on the file
+bytes (slow: the kernel walks the 2152-byte list on every access) -/
+example : (match findAll (fileOf (writeFile es4)) [1] 0x700 with
+    | .ok vs => vs == [[10], []]
+    | _ => false) = true := by decide +kernel
 
 end DnsVerif.Props.C16
